@@ -390,101 +390,105 @@ def deep_lift_shap(model, X, args=None, target=0,  batch_size=32,
 		model.apply(_clear_hooks)
 		raise(e)
 
-	for i in trange(n, disable=not verbose):
-		Xi.append(i // n_shuffles)
-		rj.append(i % n_shuffles)
+	# Hooks must come off however the loop ends: a failure in the reference
+	# generator, in indexing/casting the inputs or in post-processing would
+	# otherwise leave them on the model.
+	try:
+		for i in trange(n, disable=not verbose):
+			Xi.append(i // n_shuffles)
+			rj.append(i % n_shuffles)
 
-		if len(Xi) == batch_size or i == (n-1):
-			_X = X[Xi].cpu()
-			_args = None if args is None else tuple([a[Xi].to(device) 
-				for a in args])
+			if len(Xi) == batch_size or i == (n-1):
+				_X = X[Xi].cpu()
+				_args = None if args is None else tuple([a[Xi].to(device) 
+					for a in args])
 
-			# Handle reference sequences while ensuring that the same seed is
-			# used for each shuffle even if not all shuffles are done in the
-			# same batch.
-			if isinstance(references, torch.Tensor):
-				_references = references[Xi, rj]
-			else:
-				if random_state is None:
-					_references = references(_X, n=1)[:, 0]
+				# Handle reference sequences while ensuring that the same seed is
+				# used for each shuffle even if not all shuffles are done in the
+				# same batch.
+				if isinstance(references, torch.Tensor):
+					_references = references[Xi, rj]
 				else:
-					_references = torch.cat([references(_X[j:j+1], n=1, 
-						random_state=random_state+rj[j])[:, 0] 
-							for j in range(len(_X))])
-
-			_X = _X.to(device).requires_grad_()
-			_references = _references.to(device).requires_grad_()
-
-			# This next block is actually running DeepLIFT by concatenating the
-			# batch of examples and the batch of references and running the
-			# forward and backward passes that have been modified by the above
-			# hooks. In a try-except block to make sure we remove hooks if an
-			# error is raised. 
-			try:
-				X_ = torch.cat([_X, _references])
-
-				# Calculate the gradients using the rescale rule
-				with torch.autograd.set_grad_enabled(True):
-					if _args is not None:
-						_args = (torch.cat([arg, arg]) for arg in _args)
-						y = model(X_, *_args)[:, target]
+					if random_state is None:
+						_references = references(_X, n=1)[:, 0]
 					else:
-						y = model(X_)[:, target]
+						_references = torch.cat([references(_X[j:j+1], n=1, 
+							random_state=random_state+rj[j])[:, 0] 
+								for j in range(len(_X))])
 
-					multipliers = torch.autograd.grad(y.sum(), _X)[0]
+				_X = _X.to(device).requires_grad_()
+				_references = _references.to(device).requires_grad_()
 
-				# Check that the prediction-difference-from-reference is equal to
-				# the sum of the attributions
-				output_diff = torch.sub(*torch.chunk(y, 2))
-				input_diff = torch.sum((_X - _references) * multipliers, 
-					dim=(1, 2))
-				convergence_deltas = abs(output_diff - input_diff)
+				# This next block is actually running DeepLIFT by concatenating the
+				# batch of examples and the batch of references and running the
+				# forward and backward passes that have been modified by the above
+				# hooks. In a try-except block to make sure we remove hooks if an
+				# error is raised. 
+				try:
+					X_ = torch.cat([_X, _references])
 
-				if torch.any(convergence_deltas > warning_threshold):
-					warnings.warn("Convergence deltas too high: " +   
-						str(convergence_deltas), RuntimeWarning)
+					# Calculate the gradients using the rescale rule
+					with torch.autograd.set_grad_enabled(True):
+						if _args is not None:
+							_args = (torch.cat([arg, arg]) for arg in _args)
+							y = model(X_, *_args)[:, target]
+						else:
+							y = model(X_)[:, target]
 
-				if print_convergence_deltas:
-					print(convergence_deltas)
+						multipliers = torch.autograd.grad(y.sum(), _X)[0]
 
-			except Exception as e:
-				model.apply(_clear_hooks)
-				raise(e)
+					# Check that the prediction-difference-from-reference is equal to
+					# the sum of the attributions
+					output_diff = torch.sub(*torch.chunk(y, 2))
+					input_diff = torch.sum((_X - _references) * multipliers, 
+						dim=(1, 2))
+					convergence_deltas = abs(output_diff - input_diff)
 
-			# If not returning the raw multipliers then apply the correction for
-			# character encodings
-			if raw_outputs == False:
-				multipliers = hypothetical_attributions((multipliers,), (_X,), 
-					(_references,))[0]
+					if torch.any(convergence_deltas > warning_threshold):
+						warnings.warn("Convergence deltas too high: " +   
+							str(convergence_deltas), RuntimeWarning)
 
-			# attr_ is a list where each element is a tensor for the multipliers
-			# of one example so that we can chunk them together once all
-			# references for an example are 
-			attr_.extend(list(multipliers.cpu().detach()))
+					if print_convergence_deltas:
+						print(convergence_deltas)
 
-			# When all references for a sequence have been calculated, remove
-			# that block from the list of example-reference attributions and
-			# add it to the final attribution list, averaging across references
-			# if providing the processed results.
-			while len(attr_) >= n_shuffles:
-				attr_chunk = torch.stack(attr_[:n_shuffles])
+				except Exception as e:
+					model.apply(_clear_hooks)
+					raise(e)
 
+				# If not returning the raw multipliers then apply the correction for
+				# character encodings
 				if raw_outputs == False:
-					attr_chunk = attr_chunk.mean(dim=0)
-					if not hypothetical:
-						attr_chunk *= X[z].cpu()
+					multipliers = hypothetical_attributions((multipliers,), (_X,), 
+						(_references,))[0]
 
-				attributions.append(attr_chunk)
-				attr_ = attr_[n_shuffles:]
-				z += 1
+				# attr_ is a list where each element is a tensor for the multipliers
+				# of one example so that we can chunk them together once all
+				# references for an example are 
+				attr_.extend(list(multipliers.cpu().detach()))
 
-			if return_references:
-				references_.extend(list(_references.cpu().detach()))
+				# When all references for a sequence have been calculated, remove
+				# that block from the list of example-reference attributions and
+				# add it to the final attribution list, averaging across references
+				# if providing the processed results.
+				while len(attr_) >= n_shuffles:
+					attr_chunk = torch.stack(attr_[:n_shuffles])
 
-			Xi, rj = [], []
+					if raw_outputs == False:
+						attr_chunk = attr_chunk.mean(dim=0)
+						if not hypothetical:
+							attr_chunk *= X[z].cpu()
 
+					attributions.append(attr_chunk)
+					attr_ = attr_[n_shuffles:]
+					z += 1
 
-	model.apply(_clear_hooks)
+				if return_references:
+					references_.extend(list(_references.cpu().detach()))
+
+				Xi, rj = [], []
+	finally:
+		model.apply(_clear_hooks)
+
 	for module in model.modules():
 		del(module._NON_LINEAR_OPS)
 
